@@ -16,10 +16,10 @@ HARNESSES = [H(f"c17_sse_framing_contract_k{k:02d}", crate="ohkami", strength="b
               for k, (n, l0, l1) in enumerate(SHAPES)]
 # the symbolic shapes are kept in the harness file but NOT registered: each needs more than 20 min under CBMC (str::split's CharSearcher on symbolic bytes)
 SYMBOLIC = HARNESSES
-SEQS = ['[""]', '["a"]', '["a\\nb"]', '["\\n"]', '["ab\\n"]', '["a", "b"]', '["", "x"]', '["data: x"]', '["a\\rb"]', '["a\\r\\nb"]', '["\\r"]', '["x\\revent: y"]']
+SEQS = ['[""]', '["a"]', '["a\\nb"]', '["\\n"]', '["ab\\n"]', '["a", "b"]', '["", "x"]', '["data: x"]', '["a\\rb"]', '["a\\r\\nb"]', '["\\r"]', '["x\\revent: y"]', '["abcdefg"] (event size 0xf)', '["abcdefgh", "z"] (event size 0x10, then another message)', '["abcdefghi"] (event size 0x11)']
 HARNESSES = [H(f"c17_sse_framing_concrete_k{k:02d}", crate="ohkami", strength="bounded", timeout=900, tier="quick", expect_covers=False,
                unwindset={"memchr_naive": 14, "memchr_aligned": 3, "memcmp": 4, "CharSearcher": 8},
-               functions=SYMBOLIC[0].functions, clauses=SYMBOLIC[0].clauses, bound="ONE concrete message sequence: " + SEQS[k]) for k in range(12) if k not in (3, 4, 10)]   # k03 `\\n` and k04 `ab\\n` (trailing LF): and k10 `\\r` (messages ENDING in a line break: an empty last line): no answer in 15 min, not registered
+               functions=SYMBOLIC[0].functions, clauses=SYMBOLIC[0].clauses, bound="ONE concrete message sequence: " + SEQS[k]) for k in range(15) if k not in (3, 4, 10)]   # k03 `\\n` and k04 `ab\\n` (trailing LF): and k10 `\\r` (messages ENDING in a line break: an empty last line): no answer in 15 min, not registered
 TRUSTED = ["the reference chunked reader / event-stream interpreter in harness/C17/send.rs (written from RFC 9112 §7.1 and WHATWG HTML §9.2.6)",
            "the extraction rule of lib/vf.py (//@extract): the block between two unique marker lines of Response::send is copied verbatim into a harness function on every run"]
 ASSUMPTIONS = ["dropped by the extraction and NOT under contract: the await points of the loop (stream.next(), write_all, flush), i.e. every producer schedule / pacing question, the response head (Transfer-Encoding: chunked is set by set_stream_raw) and the final `0 CRLF CRLF` write, which the harness appends itself",
